@@ -332,20 +332,24 @@ def main():
     if hasattr(mod, 'check_case'):
         _orig_check_case = mod.check_case
 
-        class _CaseTimeout(Exception):
+        class _CaseTimeout(BaseException):
             pass
+        _timed_out = []
 
         def _on_alarm(signum, frame):
             raise _CaseTimeout()
 
         def _guarded_check_case(ctx_, case_, *a_, _f=_orig_check_case, **kw_):
             import signal
-            limit_ = int(os.environ.get('VERIF_CASE_TIMEOUT', '600'))
+            if _timed_out:
+                return []      # one case that does not come back is reported; the remaining cases are not started
+            limit_ = int(os.environ.get('VERIF_CASE_TIMEOUT', '300'))
             old_ = signal.signal(signal.SIGALRM, _on_alarm)
             signal.alarm(limit_)
             try:
                 return _f(ctx_, case_, *a_, **kw_)
             except _CaseTimeout:
+                _timed_out.append(1)
                 # a single case normally takes well under a second: a library call that does not come back is an outcome
                 return [('violation', 'case-timeout', 'the case did not finish within %d s' % limit_)]
             except Exception as e_:
